@@ -187,6 +187,8 @@ def oracle(c):
             return "split at a domain end was not rejected"
         if S.from_obj(o) != before:
             return "split modified its input"
+        if S.views_why(o):
+            return "split modified its input: " + S.views_why(o)
         if len(ps) != 2:
             return "split returned %d pieces" % len(ps)
         for k, pc in enumerate(ps):
@@ -230,6 +232,8 @@ def oracle(c):
         return "decompose raised %s: %s" % (type(e).__name__, e)
     if S.from_obj(o) != before:
         return "decompose modified its input"
+    if S.views_why(o):
+        return "decompose modified its input: " + S.views_why(o)
     spans = []
     for j, (p, kv, n) in enumerate(ds):
         ks = sorted(set(kv[p:n + 1]))
